@@ -259,14 +259,18 @@ func tryForeign(rv reflect.Value) (closed bool) {
 	return true
 }
 
-func (s *Sim) foreignFired(obj string) {
+// foreignFired records a receive on a foreign channel (ctx.Done()) that fired. polled tells
+// whether it happened in a non-blocking poll (a select with a default branch): that is an
+// unambiguous "the code looked at the context and saw it cancelled"; a fire that ends a blocking
+// wait may be a mere wake-up.
+func (s *Sim) foreignFired(obj string, polled bool) {
 	s.Stats.ForeignFired++
 	q := s.event("foreign-fired", obj)
 	if s.FirstForeign == 0 {
 		s.FirstForeign = q
 	}
 	if s.cfg.OnForeignFire != nil {
-		s.cfg.OnForeignFire(q)
+		s.cfg.OnForeignFire(q, polled)
 	}
 }
 
@@ -275,7 +279,7 @@ func foreignRecvBlocking(s *Sim, rv reflect.Value) (interface{}, bool) {
 		s.event("frecv-block", "foreign")
 		s.block("recv foreign", func() bool { return tryForeign(rv) })
 	}
-	s.foreignFired("recv")
+	s.foreignFired("recv", false)
 	s.yield()
 	return nil, false
 }
@@ -428,7 +432,7 @@ func Select(hasDefault bool, cases ...SelCase) SelResult {
 		c := cases[i]
 		in := infos[i]
 		if in.m == nil {
-			s.foreignFired(caseName(i))
+			s.foreignFired(caseName(i), hasDefault)
 			return SelResult{I: i, val: nil, ok: false}
 		}
 		if c.send {
@@ -522,7 +526,7 @@ func Select(hasDefault bool, cases ...SelCase) SelResult {
 	}
 	st.fired = true // cancels the queued waiters
 	if fi >= 0 {
-		s.foreignFired(caseName(fi))
+		s.foreignFired(caseName(fi), false)
 		s.yield()
 		return SelResult{I: fi}
 	}
